@@ -48,6 +48,23 @@ type Handler struct {
 	Seen          [][]byte
 }
 
+var (
+	refusalMu sync.Mutex
+	refusals  = map[uint8]*packet.ErrorParseTCP{}
+)
+
+// refusal returns the process-wide error value for the code.
+func refusal(code uint8) *packet.ErrorParseTCP {
+	refusalMu.Lock()
+	defer refusalMu.Unlock()
+	e := refusals[code]
+	if e == nil {
+		e = packet.NewErrorParseTCP(code, "handler refuses this unit")
+		refusals[code] = e
+	}
+	return e
+}
+
 // Handle implements server.ModbusHandler.
 func (h *Handler) Handle(ctx context.Context, req packet.Request) (packet.Response, error) {
 	h.mu.Lock()
@@ -74,7 +91,9 @@ func (h *Handler) Handle(ctx context.Context, req packet.Request) (packet.Respon
 		return nil, fmt.Errorf("handler: the context it was given is already done: %w", err)
 	}
 	if h.ErrorFromUnit > 0 && len(raw) > 6 && raw[6] >= h.ErrorFromUnit {
-		return nil, packet.NewErrorParseTCP(ErrorCodeFor(raw[6]), "handler refuses this unit")
+		// one error value per code, created once and returned for every refusal (the usual package-level `var errRefused = ...`):
+		// the value is the handler's, the server only reads it
+		return nil, refusal(ErrorCodeFor(raw[6]))
 	}
 	if mode == "mutate-error" || mode == "mutate-typed-error" {
 		// a gateway handler re-addresses the request object it was given (own upstream transaction id, mapped unit id) before
